@@ -190,7 +190,12 @@ func (fr *Frame) eval(st *State, x ast.Expr) *Term {
 		rs := fr.evalTypeAssert(st, x, false)
 		return rs[0]
 	case *ast.FuncLit:
-		// function value: opaque reference
+		// function value: opaque reference. Under `option execlits` the body of a literal that is only
+		// passed on or returned is also executed once, detached, with arbitrary arguments, so that
+		// the call-site clauses of the enclosing contract cover it.
+		if fr.top != nil && fr.top.fc != nil && fr.top.fc.Options["execlits"] != "" && !fr.inClosure {
+			fr.execDetachedClosure(st, x)
+		}
 		return Fresh("closure", IntSort)
 	case *ast.KeyValueExpr:
 		fr.unsupported(x, "key-value outside composite")
